@@ -86,6 +86,18 @@ Step ==
     [] e = "h_lock_dead" ->   \* pool.mu could not be taken any more: a pool method waits for the lock it holds
          /\ bad' = "NoSelfDeadlock" /\ drift' = "none"
          /\ UNCHANGED <<cnt, fil, clo>>
+    [] e = "h_fill_stuck" ->  \* pool.filling stayed TRUE although no fill is in progress: the pool is never refilled
+         /\ bad' = "FillEnds" /\ drift' = "none"
+         /\ UNCHANGED <<cnt, fil, clo>>
+    [] e = "h_host_conns" ->  \* dialer's view at quiescence: open pool connections to one host (a) vs NumConns (size)
+         /\ bad' = IF Cur.a > Cur.size THEN "HostBound"
+                   ELSE IF Cur.a > 0 /\ Cur.q = "no-pool-in-map" THEN "NoOrphanPool" ELSE "none"
+         /\ drift' = "none"
+         /\ UNCHANGED <<cnt, fil, clo>>
+    [] e = "h_host_closed" -> \* after removeHost: connections to the host still open
+         /\ bad' = IF Cur.a > 0 THEN "NoOrphanPool" ELSE "none"
+         /\ drift' = "none"
+         /\ UNCHANGED <<cnt, fil, clo>>
     [] e = "h_final" ->    \* the pool has been closed and everything has settled
          /\ bad' = IF open # {} THEN "NoLeakAfterClose" ELSE IF conns # {} THEN "ClosedEmpty" ELSE "none"
          /\ drift' = "none"
